@@ -1,0 +1,11 @@
+//go:build verif
+
+package client
+
+import "net/http"
+
+// ZVNewWithRoundTripper builds a LogClient whose HTTP traffic goes through rt
+// (verification hook: lets a harness serve a CT log in-process).
+func ZVNewWithRoundTripper(uri string, rt http.RoundTripper) *LogClient {
+	return &LogClient{Uri: uri, httpClient: &http.Client{Transport: rt}}
+}
